@@ -66,9 +66,26 @@ def dimensions_part(dimensions):
         for dim in dims.keys():
             (custom_dims if dim.startswith('dim_') else predefined_dims).append(dim)
         dim_keys = sorted(predefined_dims) + sorted(custom_dims)
-        return os.path.join(*(map(lambda k: k + "-" + str(dims.get(k, 'default')), dim_keys)))
+        return os.path.join(*(map(lambda k: _safe_dimension_path(k + "-" + str(dims.get(k, 'default'))), dim_keys)))
     else:
         return ""
+
+
+def _safe_dimension_path(part):
+    """
+    Dimension names and values come from the request. Keep sub-directories (e.g. for
+    time intervals like ``2020-01-01/2020-02-01``), but never let a part climb out of
+    the cache directory.
+
+    >>> _safe_dimension_path('time-2020-01-01/2020-02-01')
+    'time-2020-01-01/2020-02-01'
+    >>> _safe_dimension_path('time-../../../etc')
+    'time-../_/_/etc'
+    >>> _safe_dimension_path('dim_/../x-y')
+    'dim_/_/x-y'
+    """
+    segments = part.replace('\\', '/').split('/')
+    return '/'.join(seg if seg not in ('', '.', '..') else '_' for seg in segments)
 
 
 def level_part(level):
